@@ -187,7 +187,7 @@ func VH_C16_write(del int) {
 }
 
 // VH_C16_txn: the same limits hold for operations nested in a transaction.
-// shape: 0 nested put, 1 nested delete range, 2 nested range, 3 empty oneof
+// shape: 0 nested put, 1 nested delete range, 2 nested range, 3 empty oneof, 4 put next to an empty oneof, 5 put next to a range
 func VH_C16_txn(shape int) {
 	n := vhServer()
 	before := n.snap()
@@ -209,6 +209,25 @@ func VH_C16_txn(shape int) {
 		r := &regattapb.RequestOp_Range{Key: vhKeyOfClass(kc), Limit: verif.Int64(), KeysOnly: verif.Bool(), CountOnly: verif.Bool()}
 		req.Success = []*regattapb.RequestOp{{Request: &regattapb.RequestOp_RequestRange{RequestRange: r}}}
 		invalid = kc == 0 || kc == 3 || r.Limit < 0 || (r.KeysOnly && r.CountOnly)
+	case 4, 5:
+		// two operations: the limits hold for every one of them, wherever it stands
+		kc, vc := verif.Choice(4), verif.Choice(4)
+		nestedKey = vhKeyOfClass(kc)
+		bad := &regattapb.RequestOp{Request: &regattapb.RequestOp_RequestPut{RequestPut: &regattapb.RequestOp_Put{Key: nestedKey, Value: vhValueOfClass(vc)}}}
+		other := &regattapb.RequestOp{} // an unset oneof
+		if shape == 5 {
+			other = &regattapb.RequestOp{Request: &regattapb.RequestOp_RequestRange{RequestRange: &regattapb.RequestOp_Range{Key: []byte("x")}}}
+		}
+		ops := []*regattapb.RequestOp{other, bad}
+		if verif.Bool() {
+			ops = []*regattapb.RequestOp{bad, other}
+		}
+		if verif.Bool() {
+			req.Success = ops
+		} else {
+			req.Failure = ops
+		}
+		invalid = kc == 0 || kc == 3 || vc == 3
 	default:
 		req.Success = []*regattapb.RequestOp{{}}
 	}
@@ -220,10 +239,10 @@ func VH_C16_txn(shape int) {
 		verif.Cover("invalid-nested")
 		verif.Assert(code != codes.OK, "a transaction with an operation violating the documented limits is refused")
 		verif.Assert(n.snap() == before, "a refused transaction has no effect")
-		if shape == 0 {
+		if shape == 0 || shape >= 4 {
 			verif.Assert(!fsm.VHHasKey(n.f, nestedKey), "no record outside the limits is ever created")
 		}
-	} else if shape != 3 {
+	} else if shape != 3 && shape != 4 {
 		verif.Assert(code == codes.OK, "a valid transaction is accepted")
 		verif.Cover("valid")
 	}
